@@ -1,5 +1,5 @@
 """C12 - cumulative products: structural clauses."""
-import ast
+import ast, copy
 from ..core import RuleResult, Finding, AnalysisError, dotted, src, norm_construct, guarded, guarded_list
 from ..expr import inline_straight, returns_of, dump, rv, Inliner
 from ..kinds import kind, INT_DTYPES
@@ -139,6 +139,23 @@ def branch_calls(finfo):
             if t is not None:
                 out[t] = ret.body
                 out[not t] = ret.orelse
+                continue
+        # f(input, dim, op_a if left else op_b): the conditional sits on one argument of the delegate call
+        if isinstance(ret, ast.Call):
+            conds = [(i, a) for i, a in enumerate(ret.args) if isinstance(a, ast.IfExp) and _left_truth(a.test, True) is not None] + \
+                    [(k.arg, k.value) for k in ret.keywords if isinstance(k.value, ast.IfExp) and _left_truth(k.value.test, True) is not None]
+            if len(conds) == 1:
+                pos, ife = conds[0]
+                t = _left_truth(ife.test, True)
+                for truth_, alt in ((t, ife.body), (not t, ife.orelse)):
+                    c2 = copy.deepcopy(ret)
+                    if isinstance(pos, int):
+                        c2.args[pos] = alt
+                    else:
+                        for k in c2.keywords:
+                            if k.arg == pos:
+                                k.value = alt
+                    out[truth_] = c2
                 continue
         if truth is None:
             return None
